@@ -81,6 +81,23 @@ class Repo:
                 return self.modules[name]
         raise Unsupported(f"module not found in repo: {name}")
 
+    def modules_under(self, name: str):
+        """[(module name, ModuleInfo)] for a module or every module of a package (recursively)."""
+        rel = SRC / Path(*name.split("."))
+        out = []
+        if rel.with_suffix(".py").exists():
+            out.append((name, self.module(name)))
+        if rel.is_dir():
+            for f in sorted(rel.rglob("*.py")):
+                parts = list(f.relative_to(SRC).with_suffix("").parts)
+                if parts[-1] == "__init__":
+                    parts = parts[:-1]
+                mn = ".".join(parts)
+                out.append((mn, self.module(mn)))
+        if not out:
+            raise Unsupported(f"module not found in repo: {name}")
+        return out
+
     def is_repo_module(self, name: str) -> bool:
         if not name.startswith("nauyaca"):
             return False
